@@ -559,7 +559,14 @@ get_trait_flag(trait_object *trait, unsigned int mask)
 static int
 set_trait_flag(trait_object *trait, unsigned int mask, PyObject *value)
 {
-    int flag = PyObject_IsTrue(value);
+    int flag;
+
+    if (value == NULL) {
+        PyErr_SetString(PyExc_TypeError, "Cannot delete this attribute.");
+        return -1;
+    }
+
+    flag = PyObject_IsTrue(value);
 
     if (flag == -1) {
         return -1;
@@ -1432,7 +1439,7 @@ get_has_traits_dict(has_traits_object *obj, void *closure)
 static int
 set_has_traits_dict(has_traits_object *obj, PyObject *value, void *closure)
 {
-    if (!PyDict_Check(value)) {
+    if ((value == NULL) || !PyDict_Check(value)) {
         return dictionary_error();
     }
 
@@ -5009,7 +5016,7 @@ get_trait_dict(trait_object *trait, void *closure)
 static int
 set_trait_dict(trait_object *trait, PyObject *value, void *closure)
 {
-    if (!PyDict_Check(value)) {
+    if ((value == NULL) || !PyDict_Check(value)) {
         return dictionary_error();
     }
     return set_value(&trait->obj_dict, value);
